@@ -2,9 +2,9 @@ package main
 
 import (
 	"fmt"
-	"sort"
 	"go/token"
 	"go/types"
+	"sort"
 	"strings"
 
 	"golang.org/x/tools/go/ssa"
@@ -316,6 +316,25 @@ func (ex *Exec) calleeEnv(spec *FuncSpec, info calleeInfo, args []Val, st, old *
 		}
 		env.vars[fmt.Sprintf("arg%d", i)] = args[i]
 	}
+	// logical variables of the callee (ghost without initial value): the
+	// caller's ghost of the same name instantiates them; otherwise they are
+	// arbitrary (and a precondition that constrains them cannot be proved)
+	for _, cl := range spec.Clauses {
+		if cl.Kind == "ghost" && cl.Expr == nil {
+			if g, ok := ex.ghosts[cl.Name]; ok && !ex.inCalleeOnly {
+				env.vars[cl.Name] = g
+			} else {
+				key := fmt.Sprintf("%p/%s", spec, cl.Name)
+				if v, ok := ex.logicalCache[key]; ok {
+					env.vars[cl.Name] = v
+				} else {
+					v := ex.freshVal("lv."+cl.Name, ex.V.specType(cl.Type, info.pkg))
+					ex.logicalCache[key] = v
+					env.vars[cl.Name] = v
+				}
+			}
+		}
+	}
 	// captured variables of a closure: their current values at the call / spawn
 	if info.fn != nil && len(info.fn.FreeVars) > 0 && info.closure != nil {
 		binds := ex.closures[info.closure]
@@ -370,7 +389,7 @@ func firstIntLit(es []SExpr) (*SIntLit, bool) {
 // fresh values: for the caller they are existentially quantified.
 func (ex *Exec) calleeGhosts(spec *FuncSpec, info calleeInfo, env *Env) {
 	for _, cl := range spec.Clauses {
-		if cl.Kind == "bind" || (cl.Kind == "ghost" && cl.Expr == nil) {
+		if cl.Kind == "bind" {
 			t := ex.V.specType(strings.TrimPrefix(cl.Type, "before:"), info.pkg)
 			env.vars[cl.Name] = ex.freshVal("cg."+cl.Name, t)
 		}
@@ -1062,12 +1081,32 @@ func (ex *Exec) checkPost(res []Val, pos token.Pos) {
 	if len(res) == 1 {
 		env.vars["result"] = res[0]
 	}
+	// instantiation hints: integer terms worth trying in quantified hypotheses
+	ex.hintTerms = nil
+	for _, c := range ex.spec.Clauses {
+		if c.Kind == "hint" {
+			for _, e := range c.Exprs {
+				for _, st := range []*State{ex.init, ex.cur} {
+					henv := ex.envAt(st, nil)
+					henv.entry = true
+					for k, v := range env.vars {
+						henv.vars[k] = v
+					}
+					if v := ex.evalSpec(e, henv); v.T != nil && v.T.S == SInt {
+						ex.hintTerms = append(ex.hintTerms, v.T)
+					}
+				}
+			}
+		}
+	}
+	hints := ex.hintTerms
 	ord := 0
 	for _, c := range ex.spec.Clauses {
 		switch c.Kind {
 		case "ensures", "maintains":
 			g := ex.evalSpec(c.Expr, env)
 			ex.oblige(fmt.Sprintf("ensures%d@ret%d", ord, ex.returns), ex.tagsOf(c), g.T, pos, c.Text)
+			ex.obls[len(ex.obls)-1].Hints = hints
 			ord++
 		}
 	}
